@@ -6,7 +6,7 @@ PROP = {
     "coq": ["C17", "C17s"],
     "pre": [regen_src],
     "exhaustive": False,
-    "rule": "16-bit codecs: all 2^16 values x 2 byte orders, both directions (exhaustive). 32/64-bit: "
+    "rule": "16-bit codecs: all 2^16 values x 2 byte orders, both directions (exhaustive); the list encoder uint16sToBytes on random lists, called twice on the same slice with sentinels in its spare capacity (output = layout, slice and spare capacity unchanged, second call equal). 32/64-bit: "
             "per-byte-position exhaustion over 4 backgrounds, walking ones/zeros, NaN/inf/-0/subnormal patterns "
             "and seeded random values x 4 (byte order, word order) settings, integer and float entry points, "
             "plus ragged inputs that must panic. Bools: all vectors up to 12 bits, every length 0..2001 "
